@@ -91,6 +91,11 @@ func (win Window) SetCell(col int, row int, cell Cell) {
 	}
 	switch win.Parent {
 	case nil:
+		// The screen clips like a window: a window without a parent can
+		// reach beyond it
+		if col+win.Column+w > win.Vx.screenNext.cols {
+			return
+		}
 		win.Vx.screenNext.setCell(col+win.Column, row+win.Row, cell)
 	default:
 		win.Parent.SetCell(col+win.Column, row+win.Row, cell)
